@@ -48,12 +48,64 @@ func Known() map[string]bool {
 }
 
 var refHashes map[string]map[string]bool
+var refLibs map[string]map[string]bool
+
+// LibCalls lists, syntactically, the library helpers (libAllow) a declaration calls: "path.Name".
+func LibCalls(f *ast.File, fd *ast.FuncDecl) []string {
+	local := map[string]string{}
+	for _, is := range f.Imports {
+		path := strings.Trim(is.Path.Value, `"`)
+		if libAllow[path] == nil {
+			continue
+		}
+		n := path[strings.LastIndex(path, "/")+1:]
+		if is.Name != nil {
+			n = is.Name.Name
+		}
+		local[n] = path
+	}
+	seen := map[string]bool{}
+	var out []string
+	if len(local) == 0 {
+		return nil
+	}
+	ast.Inspect(fd, func(n ast.Node) bool {
+		se, ok := n.(*ast.SelectorExpr)
+		if !ok {
+			return true
+		}
+		id, ok := se.X.(*ast.Ident)
+		if !ok || local[id.Name] == "" {
+			return true
+		}
+		for _, nm := range libAllow[local[id.Name]] {
+			if nm == se.Sel.Name && !seen[local[id.Name]+"."+nm] {
+				seen[local[id.Name]+"."+nm] = true
+				out = append(out, local[id.Name]+"."+nm)
+			}
+		}
+		return true
+	})
+	sort.Strings(out)
+	return out
+}
+
+// RefCallsLib: on the reference tree the function of that key already called the library helper.
+func RefCallsLib(key, lib string) bool {
+	loadRef()
+	return refLibs[key][lib]
+}
 
 // Unchanged reports whether the declaration is, token for token, the function
 // of that name on the reference tree. The later stages of the normal form
 // leave such functions alone: the rules were confirmed against them as
 // written, and today's tree is its own normal form.
 func Unchanged(rel string, fd *ast.FuncDecl) bool {
+	loadRef()
+	return refHashes[rel+" "+FuncKey(fd)][ASTHash(fd)]
+}
+
+func loadRef() {
 	if refHashes == nil {
 		refHashes = map[string]map[string]bool{}
 		for _, l := range strings.Split(knownText, "\n") {
@@ -63,13 +115,22 @@ func Unchanged(rel string, fd *ast.FuncDecl) bool {
 				continue
 			}
 			set := map[string]bool{}
-			for _, h := range strings.Split(l[i+1:], ",") {
+			fields := strings.Split(l[i+1:], "\t")
+			for _, h := range strings.Split(fields[0], ",") {
 				set[h] = true
 			}
 			refHashes[l[:i]] = set
+			if len(fields) > 1 && fields[1] != "" {
+				if refLibs == nil {
+					refLibs = map[string]map[string]bool{}
+				}
+				refLibs[l[:i]] = map[string]bool{}
+				for _, x := range strings.Split(fields[1], ",") {
+					refLibs[l[:i]][x] = true
+				}
+			}
 		}
 	}
-	return refHashes[rel+" "+FuncKey(fd)][ASTHash(fd)]
 }
 
 // ASTHash is a hash of the declaration's syntax tree: node kinds, identifiers,
@@ -688,7 +749,14 @@ func (pl *planner) target(c *ast.CallExpr) *helper {
 	if h := pl.helpers[fn]; h != nil {
 		return h
 	}
-	return pl.lib[fn]
+	if h := pl.lib[fn]; h != nil {
+		// a library call the function already made on the reference tree stays a call: the rules know it as one
+		if RefCallsLib(pl.rel+" "+pl.curFunc, h.pkg.PkgPath+"."+h.obj.Name()) {
+			return nil
+		}
+		return h
+	}
+	return nil
 }
 
 // dropDeadClosures removes the definition of a closure all of whose calls were
